@@ -428,7 +428,7 @@ def builtin_geometry_follows(ctx, cx, cy, A, scale_total, tol, tag, mkinds):
     if c0 is None or c1 is None or r0 is None or r1 is None:
         return True
     ctx.count("judged:built-in-geometry-follows")
-    if np.linalg.norm(A(c0) - c1) > tol * 4 + 1e-7 or abs(r1 - r0 * scale_total) > 1e-6 * r0 * scale_total + 1e-8:
+    if not (np.linalg.norm(A(c0) - c1) <= tol * 4 + 1e-7 and abs(r1 - r0 * scale_total) <= 1e-6 * r0 * scale_total + 1e-8):
         has_mirror = "mirror" if any(m.startswith("mirror") for m in mkinds) else "no-mirror"
         ctx.violation(f"built-in-geometry-not-transformed:{tag}:{has_mirror}",
                       f"{mkinds}: declared sphere centre {c1.tolist()} radius {r1}, the transformed original has centre {A(c0).tolist()} radius {r0 * scale_total}")
@@ -538,7 +538,7 @@ def run_case(ctx, case):
     if g == "point":
         d = float(np.linalg.norm(Y.position - A(X.position)))
         ctx.count("judged:vertices")
-        if d > 1e-9 * (1 + np.linalg.norm(X.position)):
+        if not (d <= 1e-9 * (1 + np.linalg.norm(X.position))):
             ctx.violation(f"point-position:{'+'.join(mkinds)}", f"{mkinds}: API {Y.position}, geometry {A(X.position)}")
         return
     if g == "curve":
@@ -615,12 +615,12 @@ def compare(ctx, cx, cy, A, scale_total, tol, tag, mkinds, via):
         dist = geom.directed_curve_distance(have, want, 61)
         chord = float(np.linalg.norm(qa - qb))
         etol = tol * 4 if ex["src"] != "curve" else 0.03 * max(chord, 1e-6) + tol
-        if dist > etol:
+        if not (dist <= etol):
             ctx.violation(f"edge-shape:{tag}:{ex['src']}:{mk}:{org}",
                           f"{mkinds} via {via}: {ex['kind']} edge between {list(qa)} and {list(qb)} deviates {dist:.3g} (tol {etol:.2g}) from the transformed original curve")
             return False
         rel = 5e-3 if ex["src"] in ("curve", "spline") else 1e-6
-        if abs(match["length"] - ex["length"] * scale_total) > rel * ex["length"] * scale_total + 1e-9:
+        if not (abs(match["length"] - ex["length"] * scale_total) <= rel * ex["length"] * scale_total + 1e-9):
             ctx.violation(f"edge-length:{tag}:{ex['src']}:{mk}:{org}",
                           f"{mkinds} via {via}: Edge.length {match['length']} after, {ex['length']} x {scale_total} before")
             return False
@@ -641,17 +641,17 @@ def judge_curve(ctx, X, Y, A, scale_total, tag, mkinds, e):
         dense_y = np.array([Y.get_point(lo + (hi - lo) * k / 256) for k in range(257)])
         for t in ts:
             d = geom.point_polyline_distance(A(X.get_point(t)), dense_y)
-            if d > 1e-3 * size:
+            if not (d <= 1e-3 * size):
                 ctx.violation(f"curve-point:{tag}:{mk}", f"{mkinds}: image of the point at parameter {t} is {d} off the transformed circle")
                 return
         ts = []
     for t in ts:
         d = float(np.linalg.norm(Y.get_point(t) - A(X.get_point(t))))
-        if d > 1e-7 * size:
+        if not (d <= 1e-7 * size):
             ctx.violation(f"curve-point:{tag}:{mk}", f"{mkinds}: point at parameter {t}: API {Y.get_point(t)}, geometry {A(X.get_point(t))}")
             return
     lx, ly = X.length, Y.length
-    if abs(ly - lx * scale_total) > 1e-6 * lx * scale_total:
+    if not (abs(ly - lx * scale_total) <= 1e-6 * lx * scale_total):
         ctx.violation(f"curve-length:{tag}:{mk}", f"{mkinds}: length {ly} after, {lx} x {scale_total} before")
 
 
@@ -666,7 +666,7 @@ def copy_check_curve(ctx, e, cb, tag):
         if not np.array_equal(X.get_point(t), b):
             ctx.violation(f"copy-shares-state:{tag}", f"translating the copy moved the original's point at {t}")
             return
-        if np.linalg.norm(C.get_point(t) - (b + np.array([1.0, 2.0, 3.0]))) > 1e-9:
+        if not (np.linalg.norm(C.get_point(t) - (b + np.array([1.0, 2.0, 3.0]))) <= 1e-9):
             ctx.violation(f"copy-does-not-follow-its-own-transform:{tag}", f"copy.translate([1,2,3]): point at {t} is {C.get_point(t)}, expected {b + np.array([1.0, 2.0, 3.0])}")
             return
 
